@@ -436,6 +436,43 @@ class Program:
             out[k.arg] = k.value
         return target, out
 
+    def signature_of(self, name: str) -> tuple[str, ...] | None:
+        """Positional parameter names (without self / cls) of the package
+        callable `name`, when all definitions of that name agree."""
+        if not hasattr(self, "_sigs"):
+            table: dict[str, set] = {}
+            for fi in self.functions.values():
+                a = fi.node.args
+                if a.vararg or a.posonlyargs:
+                    params = None
+                else:
+                    params = tuple(x.arg for x in a.args)
+                    if fi.cls is not None and not fi.is_staticmethod():
+                        params = params[1:]
+                    params = params + tuple(x.arg for x in a.kwonlyargs)
+                table.setdefault(fi.name, set()).add(params)
+            self._sigs = {k: next(iter(v)) for k, v in table.items()
+                          if len(v) == 1 and next(iter(v)) is not None}
+        return self._sigs.get(name)
+
+    def bound_args(self, call: ast.Call) -> dict[str, ast.AST] | None:
+        """parameter -> argument expression of a call to a package function
+        or method (by its unique name), however the arguments are passed;
+        None when the callee's signature is not known."""
+        f = call.func
+        name = f.id if isinstance(f, ast.Name) else (
+            f.attr if isinstance(f, ast.Attribute) else None)
+        sig = self.signature_of(name) if name else None
+        if sig is None or any(isinstance(a, ast.Starred) for a in call.args) \
+                or any(k.arg is None for k in call.keywords):
+            return None
+        if len(call.args) > len(sig):
+            return None
+        out = dict(zip(sig, call.args))
+        for k in call.keywords:
+            out[k.arg] = k.value
+        return out
+
     def stats(self) -> dict:
         return {
             "modules": len(self.modules),
